@@ -120,7 +120,7 @@ R("b928934e4f", "internal", "a node is a pointer target only when its offset is 
 R("52d40a7c0c", "internal", "node offsets are >= 12: every name is written after the header", requires=("C14.R4", "C04.R2"))
 R("7532e66d42", "internal", "0xc0 + (offset >> 8) with offset < 0x4000", requires=("C14.R3",))
 R("0f1c7121e2", "internal", "0xc0 + (offset >> 8) with offset < 0x4000", requires=("C14.R3",))
-R("cc0b823c76", "internal", "character-strings come from get_string, whose length is one octet")
+R("cc0b823c76", "internal", "character-strings come from get_string, whose length is one octet", requires=("C14.R12",))
 R("6271723e32", "internal", "the client cookie is the first 8 octets returned by get_cookie", requires=("S3",))
 R("f966cff6de", "internal", "the server cookie is the 32-octet HMAC output")
 R("d28506018c", "internal", "the RDATA variant is chosen from the record type by the decoder, so the type asserted for a variant is the type "
